@@ -225,6 +225,24 @@ def scenario(ck, rng, idx):
                 w.add_event(ev)
                 written.append(('event', expected(e)))
                 ck.dist('event-class:' + kind)
+                if kind != 'ParsedEvent' and rng.random() < 0.25:
+                    # the same event object, changed in place after it was written, and written once more
+                    extra = 'again %d' % len(written)
+                    how = rng.randrange(3)
+                    if how == 0:
+                        ev['w'].add(extra)
+                    elif how == 1:
+                        from edxml import EDXMLEvent as _E
+                        ev.copy_properties_from(_E({'zz': [extra]}, e['type'], e['source']), {'zz': 'w'})
+                    else:
+                        ev.properties['w'].add(extra)
+                    e2 = copy.deepcopy(e)
+                    e2['props'].setdefault('w', [])
+                    e2['props']['w'] = list(e2['props']['w']) + [extra]
+                    history.append(['event-written-again-after-in-place-change', kind, e2])
+                    w.add_event(ev)
+                    written.append(('event', expected(e2)))
+                    ck.dist('event-written-again')
             except EDXMLError as ex:
                 ck.dist('writer-rejects-event')
                 history[-1].append('rejected: ' + ' '.join(str(ex).split())[-120:])
